@@ -4,6 +4,7 @@ import (
 	"errors"
 	"fmt"
 	"io/fs"
+	"math"
 	"sort"
 	"strings"
 
@@ -394,6 +395,12 @@ func (w *World) buildBatch(ms []Mem) ([]sod.Object, []*Rec) {
 			r.P = InvalidP
 			objs = append(objs, r)
 			recs = append(recs, r)
+		case "nan":
+			// valid, conflict-free by itself, but impossible to serialise
+			r := NewRec(m.V, m.K)
+			r.Q = math.NaN()
+			objs = append(objs, r)
+			recs = append(recs, r)
 		case "other":
 			objs = append(objs, &Other{X: m.V})
 			recs = append(recs, nil)
@@ -424,10 +431,20 @@ func (w *World) expectMany(objs []sod.Object, recs []*Rec) string {
 		if r == nil {
 			return eWrongType
 		}
-		c := cloneRec(r)
+		unser := math.IsNaN(r.Q) || math.IsInf(r.Q, 0)
+		src := r
+		if unser {
+			tmp := *r
+			tmp.Q = 0
+			src = &tmp
+		}
+		c := cloneRec(src)
 		canon(c)
 		if c.Validate() != nil {
 			return eInvalid
+		}
+		if unser {
+			return eOther // cannot be serialised
 		}
 		// within-batch conflicts (against the latest version of every distinct member)
 		for _, e := range seen {
